@@ -3,5 +3,3 @@ package sim
 import abci "github.com/cometbft/cometbft/abci/types"
 
 var _ abci.Event
-
-
